@@ -78,6 +78,12 @@ def cases(rng, tier):
 			b'GET / HTTP/' + b'9' * 5000 + b'.1\r\nHost: h\r\n\r\n', b'GET / HTTP/1.1\r\nHost: h:' + b'9' * 5000 + b'\r\n\r\n', b'POST / HTTP/1.1\r\nHost: h\r\nContent-Length: ' + b'9' * 5000 + b'\r\n\r\n',
 			b'POST / HTTP/1.1\r\nHost: h\r\nTransfer-Encoding: chunked\r\n\r\n' + b'f' * 5000 + b'\r\nab'):
 		yield ('s', 'server', t, ((), tuple(range(1, min(len(t), 200)))))
+	# bracketed hosts of every sort in the target and in the Host field: address literals, IPvFuture with odd versions, look-alikes
+	for h in (b'[vx.y]', b'[v.addr]', b'[v1_0.a]', b'[vzz.1]', b'[vhost.example.com]', b'[vF.a]', b'[v1.fe:DC]', b'[V1.a]', b'[v\xb2.a]', b'[v1.]', b'[v.]', b'[v-1.a]', b'[v+1.a]', b'[v 1.a]', b'[v1a.b]',
+			b'[v0x1.a]', b'[::1]', b'[::g]', b'[1.2.3.4]', b'[]', b'[', b']', b'[::1%25eth0]', b'[' + b'1:' * 40 + b']', b'[v' + b'9' * 5000 + b'.a]'):
+		for t in (b'GET http://' + h + b'/ HTTP/1.1\r\nHost: h\r\n\r\n', b'CONNECT ' + h + b':443 HTTP/1.1\r\nHost: h\r\n\r\n', b'GET / HTTP/1.1\r\nHost: ' + h + b'\r\n\r\n',
+				b'GET //' + h + b'/x HTTP/1.1\r\nHost: h\r\n\r\n', b'GET http://u@' + h + b':81/ HTTP/1.0\r\n\r\n'):
+			yield ('s', 'server', t, ((),))
 	n = 200000 if tier == 'thorough' else 5000
 	for _ in range(n):
 		side = rng.choice(('server', 'server', 'server', 'client'))
